@@ -30,7 +30,7 @@ impl SnapshotTracker {
     // C08: a single-writer transaction's snapshot must be taken after the previous writer's commit, i.e. with the mutex held
     #[verifier::external_body]
     pub fn open(&self, Tracked(w): Tracked<&mut World>) -> (r: SnapshotNonce)
-        requires old(w).sw_locked, // [C08:snapshot-opened-under-the-single-writer-lock]
+        requires old(w).sw_locked, // [C08:snapshot-opened-under-the-single-writer-lock] [C05:snapshot-opened-under-the-single-writer-lock]
         ensures *final(w) == (World { opened: old(w).opened + 1, ..*old(w) }), r.taken_locked@ == old(w).sw_locked,
     { unimplemented!() }
 }
@@ -75,12 +75,12 @@ impl Clone for TxDatabase { fn clone(&self) -> (r: TxDatabase) ensures r.single_
         r.inner.nonce == self.inner.nonce, r.inner.durability == mode,
 //@end
 
-//@extract src/tx/single_writer/mod.rs :: TxDatabase :: write_tx world props=C08
+//@extract src/tx/single_writer/mod.rs :: TxDatabase :: write_tx world props=C08+C05
 //@contract
     requires !old(w).sw_locked,
     ensures
         final(w).sw_locked, // [C08:single-writer-lock-held-for-the-whole-transaction]
-        r.inner.nonce.taken_locked@, // [C08:snapshot-opened-under-the-single-writer-lock]
+        r.inner.nonce.taken_locked@, // [C08:snapshot-opened-under-the-single-writer-lock] [C05:snapshot-opened-under-the-single-writer-lock]
         final(w).opened == old(w).opened + 1,
         // journal persist: Buffer unless the database is in manual-persist mode (C02/C09 premise for transactions)
         r.inner.durability == (if self.inner.config.manual_journal_persist { None } else { Some(PersistMode::Buffer) }), // [C08:commit-durability-follows-the-database-mode]
